@@ -29,7 +29,7 @@ WEIGHTS.update({"svd": 2, "factor_recombine": 1, "eigh_gram": 1, "swap_gate": 1,
 
 
 def budget(tier):
-    return 1500 if tier == "quick" else 40000
+    return 4000 if tier == "quick" else 40000
 
 
 def after_op(w, task, rec, outs):
